@@ -116,7 +116,19 @@ func ListenTo(inPort drivers.In, recv func(msg Message, timestampms int32), opts
 	var typ, channel byte
 
 	var onMsg = func(data []byte, millisec int32) {
+		if len(data) == 0 {
+			return
+		}
 		status := data[0]
+
+		// not every driver pads the messages it delivers to three bytes
+		var data1, data2 byte
+		if len(data) > 1 {
+			data1 = data[1]
+		}
+		if len(data) > 2 {
+			data2 = data[2]
+		}
 
 		var msg Message
 		switch {
@@ -132,12 +144,12 @@ func ListenTo(inPort drivers.In, recv func(msg Message, timestampms int32), opts
 			case byteSysTuneRequest:
 				msg = Tune()
 			case byteMIDITimingCodeMessage:
-				msg = MTC(data[1])
+				msg = MTC(data1)
 			case byteSysSongPositionPointer:
-				_, abs := midilib.ParsePitchWheelVals(data[1], data[2])
+				_, abs := midilib.ParsePitchWheelVals(data1, data2)
 				msg = SPP(abs)
 			case byteSysSongSelect:
-				msg = SongSelect(data[1])
+				msg = SongSelect(data1)
 			default:
 				// undefined syscommon message
 				//				msg = NewUndefined()
@@ -158,12 +170,12 @@ func ListenTo(inPort drivers.In, recv func(msg Message, timestampms int32), opts
 		case status >= 0x80 && status <= 0xEF:
 			isStatusSet = true
 			typ, channel = midilib.ParseStatus(status)
-			msg = _channelMessage(typ, channel, data[1], data[2])
+			msg = _channelMessage(typ, channel, data1, data2)
 
 		default:
 			// running status
 			if isStatusSet {
-				msg = _channelMessage(typ, channel, data[1], data[2])
+				msg = _channelMessage(typ, channel, data1, data2)
 			}
 		}
 
